@@ -908,7 +908,11 @@ def extra_checks(seed, tier, args):
     extra = {"crash_site_sweep": {"tasks_run": len(idxs), "tasks_total": len(tasks), "points": int(pts), "what": "per (detector x scorer x operation x shared/unshared) and (scorer x fit/evaluate): an interrupt at the first (thorough: also last and one random) dynamic hit of every distinct skchange source line the call executes, and for the stub cost a failure at every k-th stub call; each followed by calls on the interrupted client, the sharing client and the scorer, compared with fresh twins"}}
     extra["configuration_pair_sweep"] = {"cases": len(pidx), "complete": True, "what": "for every detector x two scorers x data width x hyper-parameter (own and scorer parameter) x ordered value pair (v1, v2) involving the first menu value: A(v1) and B(v2) used one after the other on the same data, then A.set_params(v2) / B.set_params(v1) and refit; every output judged against constructor-, clone- and set_params-built twins in-process and a twin in a pristine process"}
     extra["data_shape_sweep"] = {"cases": len(stasks), "complete": True, "what": "for every detector (but the univariate anomaliser) x three scorers x six (n, p) -> (n', p') sequences x two change magnitudes: fit and use on the first shape, refit and use on the second, use on the first again, fit_predict / fit_transform back and forth; data carry a sparse (one-column) collective change and a point outlier; every output judged against constructor- and clone-built twins and a pristine-process twin"}
-    return res + res2 + res3, extra
+    ktasks = scale_tasks()
+    kidx = list(range(len(ktasks))) if tier == "thorough" else [i for i in range(len(ktasks)) if ktasks[i]["det"] != "CircularBinarySegmentation" or (i + seed) % 3 == 0]
+    res4 = runner.run_batch("C10", seed, tier, kidx, workers=args.workers, per_run_guard=900, chunk=1, fn="run_scale")
+    extra["scale_sweep"] = {"cases_run": len(kidx), "cases_total": len(ktasks), "what": "series of 110-320 rows with hyper-parameters scaled up accordingly (interval / segment lengths and bandwidths of 30-130, so that candidate sets run into the thousands): for every detector x two scorers x three size pairs: fit, predict, scores on a same-shape twin, predict again, refit on the other size, use on both sizes, an update; every output judged against constructor- and clone-built twins and a pristine-process twin. Reaches code paths that only switch on beyond a size (fast paths, sub-sampling, chunking, display limits)"}
+    return res + res2 + res3 + res4, extra
 
 
 # --------------------------------------------------------------------------------------
@@ -1140,4 +1144,104 @@ def run_shapes(seed, idx, tier, pristine=None):
     r = _result(sim, trace)
     r["signature"] = core.digest(["shapes", task])
     r["stats"].setdefault("probes", {})["shape_cases"] = 1
+    return r
+
+
+# --------------------------------------------------------------------------------------
+# scale sweep: long series with hyper-parameters scaled up accordingly.  The random
+# histories keep n <= 80 and interval lengths <= 25 so that thousands of them fit in a
+# minute; a fast path, a sub-sampling step or a chunked loop that only switches on beyond
+# a size is out of their reach (seeded change c10h-m2 was).  A few long cases close that.
+# --------------------------------------------------------------------------------------
+SCALE_SIZES = [((130, 1), (210, 1)), ((320, 1), (110, 1)), ((160, 2), (128, 2))]
+SCALE_PARAMS = {
+    "PELT": {"min_segment_length": 3},
+    "MovingWindow": {"bandwidth": 40, "min_detection_interval": 5},
+    "SeededBinarySegmentation": {"max_interval_length": 130, "min_segment_length": 3, "growth_factor": 1.3},
+    "CircularBinarySegmentation": {"max_interval_length": 108, "min_segment_length": 2, "growth_factor": 1.5},
+    "CAPA": {"max_segment_length": 120, "ignore_point_anomalies": False},
+    "MVCAPA": {"max_segment_length": 120, "ignore_point_anomalies": False},
+    "StatThresholdAnomaliser": {},
+}
+
+
+def scale_tasks():
+    tasks = []
+    for kind, (pname, params, scorers) in SWEEP_DETECTORS.items():
+        for sc in scorers[:2]:
+            for sizes in SCALE_SIZES:
+                if sizes[0][1] > 1 and kind == "StatThresholdAnomaliser":
+                    continue
+                tasks.append({"det": kind, "scorer": sc, "sizes": sizes})
+    return tasks
+
+
+def run_scale(seed, idx, tier, pristine=None):
+    from histsim.c10 import Sim
+
+    tasks = scale_tasks()
+    task = tasks[idx % len(tasks)]
+    rng = core.make_rng(seed, "C10", 4 * 10**6 + idx)
+    kind = task["det"]
+    pname, params, _ = SWEEP_DETECTORS[kind]
+
+    def mk(did, n, p, fam, like=None):
+        x = np.round(rng.normal(size=(n, p)), 2)
+        for _ in range(3):
+            a = int(rng.integers(3, n - 12))
+            x[a : a + int(rng.integers(4, 12)), int(rng.integers(p))] += float(rng.choice([-5.0, 4.0, 6.0]))
+        x[int(rng.integers(n)), int(rng.integers(p))] += 9.0
+        if like is not None:
+            # near twin: head and tail rows of the sibling, another middle
+            y = np.array(like, dtype=float)
+            y[n // 3 : 2 * n // 3] = x[n // 3 : 2 * n // 3]
+            x = y
+        return {"id": did, "family": fam, "container": "df", "dtype": "float64", "index": {"kind": "range", "start": 0}, "columns": [f"v{j}" for j in range(p)], "values": values_to_json(x)}
+
+    (n1, p1), (n2, p2) = task["sizes"]
+    if kind == "CircularBinarySegmentation":
+        # every cut refits the local score: keep the series just beyond the interval length
+        n1, n2 = (118, 112) if n1 < n2 else (112, 118)
+    sp = dict(params)
+    sp.update(SCALE_PARAMS[kind])
+    if task["scorer"] == "pelt_l2":
+        sp[pname] = {"__cls__": "PELT", "params": {"cost": L2N, "penalty_scale": 1.0, "min_segment_length": 2}}
+    else:
+        sp[pname] = json_copy(SWEEP_SCORERS[task["scorer"]])
+    d0 = mk(0, n1, p1, 0)
+    d1 = mk(1, n1, p1, 0, like=d0["values"])
+    d2 = mk(2, n2, p2, 1)
+    d3 = mk(3, n2, p2, 1)
+    k = int(rng.integers(6, 30))
+    chunk_vals = np.round(rng.normal(size=(k, p2)), 2)
+    trace = {
+        "property": "C10",
+        "seed": int(seed),
+        "run": int(idx),
+        "tier": "scale",
+        "config": {"routes": ["clone"], "pristine": True, "scale": task},
+        "datasets": [d0, d1, d2, d3],
+        "objects": [{"name": "d0", "spec": {"__cls__": kind, "params": sp}}],
+        "steps": [
+            {"op": "fit", "c": 0, "d": 0},
+            {"op": "predict", "c": 0, "d": 0},
+            {"op": "transform_scores", "c": 0, "d": 1},
+            {"op": "predict", "c": 0, "d": 0},
+            {"op": "fit", "c": 0, "d": 2},
+            {"op": "predict", "c": 0, "d": 3},
+            {"op": "transform", "c": 0, "d": 1},
+            {"op": "update", "c": 0, "like": 2, "values": values_to_json(chunk_vals)},
+            {"op": "transform_scores", "c": 0, "d": 2},
+            {"op": "predict", "c": 0, "d": 0},
+        ],
+    }
+    sim = Sim(trace, pristine)
+    for st in trace["steps"]:
+        sim.execute(st)
+        if sim.violations:
+            break
+    sim.finish()
+    r = _result(sim, trace)
+    r["signature"] = core.digest(["scale", task])
+    r["stats"].setdefault("probes", {})["scale_cases"] = 1
     return r
